@@ -523,6 +523,11 @@ func (m *Map) resize(knownTable *mapTable, hint mapResizeHint) {
 	if !atomic.CompareAndSwapInt64(&m.resizing, 0, 1) {
 		// Someone else started resize. Wait for it to finish.
 		m.waitForResize()
+		if hint == mapClearHint {
+			// Clear must not be swallowed by a concurrent resize:
+			// go for another attempt on the resized table.
+			m.resize(knownTable, hint)
+		}
 		return
 	}
 	var newTable *mapTable
